@@ -90,8 +90,9 @@ let s_reason = function
   | RsUntyped -> "untyped" | RsNotRecord -> "notrecord" | RsDefn -> "defn"
 
 (* split on " ; " *)
+(* "Z k" steps only choose how the harness spells the field names; the model knows indices *)
 let split_steps (s : string) : string list =
-  List.filter (fun x -> String.trim x <> "") (String.split_on_char ';' s)
+  List.filter (fun x -> let t = String.trim x in t <> "" && t.[0] <> 'Z') (String.split_on_char ';' s)
 
 let () =
   iter_lines (fun line ->
